@@ -59,7 +59,12 @@ pub fn run_stress(case: &Value) -> Value {
     let (mut stuck, mut mismatch, mut panics, mut clean, mut errors) = (0u64, 0u64, 0u64, 0u64, 0u64);
     let (mut flush_private, mut write_zero, mut ok_after_drop, mut eos_then_more) = (0u64, 0u64, 0u64, 0u64);
     for it in 0..iters {
-        let req = http::Request::builder().uri("/").body(()).unwrap();
+        let gz = case["ae"].as_str() == Some("gzip");
+        let mut rb = http::Request::builder().uri("/");
+        if gz {
+            rb = rb.header("accept-encoding", "gzip");
+        }
+        let req = rb.body(()).unwrap();
         let (resp, writer) = http_serve::streaming_body(&req).with_chunk_size(cap).build::<Bytes, BoxError>();
         let Some(mut w) = writer else { continue };
         let mut body = Some(Box::pin(resp.into_body()));
@@ -227,7 +232,8 @@ pub fn run_stress(case: &Value) -> Value {
                 clean += 1;
                 let acc = accepted.load(Ordering::SeqCst);
                 let want: Vec<u8> = (0..acc as u64).map(|i| (i % 251) as u8).collect();
-                if aborted.load(Ordering::SeqCst) || delivered != want {
+                // (gzip bodies are not byte-compared here; C09's decoder facts come from the baton runs)
+                if aborted.load(Ordering::SeqCst) || (!gz && delivered != want) {
                     mismatch += 1;
                 }
             }
